@@ -511,6 +511,10 @@ def run(prog, ctx):
         jobs += [("binary", sp) for sp in universe if sp.drop in ("none", "alternate") and (sp.ndim <= 3 or sp.sym in ("Z2", "U1"))]
         chain_specs = [sp for sp in universe if sp.ndim in (2, 3) and sp.drop == "alternate"]
         chain_specs = chain_specs[:: max(1, len(chain_specs) // 48)]
+    import os
+
+    if os.environ.get("VERIF_SELFTEST"):
+        chain_specs = chain_specs[:3]  # armed-ness runs keep the single-operation battery whole and thin the two-step programs
     jobs += [("square", sp) for sp in square_specs(tier)]
     jobs += [("solve", None)]
     jobs += [("chain", sp) for sp in chain_specs]
@@ -520,11 +524,11 @@ def run(prog, ctx):
     b.flush(ctx)
     ctx.extra_coverage = {"abstract_programs_evaluated": b.nprog, "universe_arrays": len(universe),
                           "universe": [sp.describe() for sp in universe][:400]}
-    ctx.need(b.nprog >= 1500, f"C01: only {b.nprog} abstract programs evaluated")
-    check_mirrors(prog, ctx)
-    check_together(prog, ctx)
-    check_phased_sort(prog, ctx)
-    check_factor_bonds(prog, ctx)
+    ctx.need(b.nprog >= 1500, f"C01: only {b.nprog} abstract programs evaluated")  # single-operation battery alone is > 5000
+    ctx.guarded("R09.2", prog.func("symmray.fermionic_core:FermionicArray.transpose"), check_mirrors, prog, ctx)
+    ctx.guarded("R13.4", prog.func("symmray.linalg:svd_truncated"), check_together, prog, ctx)
+    ctx.guarded("R04.3", prog.func("symmray.fermionic_core:resolve_combined_oddpos"), check_phased_sort, prog, ctx)
+    ctx.guarded("R11.1", prog.func("symmray.linalg:qr"), check_factor_bonds, prog, ctx)
     ctx.minimum("V1", 14, "structure-preserving operations")
     ctx.minimum("V3", 20, "fuse/unfuse programs")
     ctx.minimum("V4", 10, "contractions")
